@@ -254,6 +254,70 @@ def run_inplace(chk, fx, fns, prefix="C03"):
 
 
 
+def run_changed(chk, fx, prefix="C03"):
+    """<prefix>.changed: 'install the new value only if it differs' makes operator== part of the schedule semantics."""
+    r = chk.rule(prefix + ".changed", "where an update method installs a new value only if `*this->m != *arg`, the operator== of that class compares every data member (a forgotten member makes a keyword that changes only that member a silent no-op)", floor=12)
+    exempt = {(e["class"], e["member"]): e for e in core.load_table("c03_changed_exempt.json")["exempt"]}
+    used = set()
+    by_q = {}
+    for f in fx.fns:
+        by_q.setdefault(f["q"], []).append(f)
+    hdr = None
+    sites = []
+    for f in fx.fns:
+        if not f.get("body") or not f.get("cls"):
+            continue
+        for n in walk_fn(f):
+            if n["k"] != "If":
+                continue
+            cmps = [c for c in walk(n["cond"]) if c["k"] == "OpCall" and c.get("op") in ("!=", "==") and len(c.get("a", [])) == 2 and (c.get("fn") or "").startswith("Opm::")]
+            for c in cmps:
+                mems = [x["n"] for a_ in c["a"] for x in walk(a_) if x["k"] == "Mem" and strip(x.get("b") or {"k": "This"})["k"] == "This"]
+                prm = [x["n"] for a_ in c["a"] for x in walk(a_) if x["k"] == "Ref" and x.get("d") == "Parm"]
+                if not mems or not prm:
+                    continue
+                tgt = {y["n"] for br in (n["then"], n.get("else")) if br is not None for x in walk(br)
+                       if (x["k"] == "Bin" and x.get("asg") and x["op"] == "=") or (x["k"] == "OpCall" and x.get("op") == "=")
+                       for y in walk((x.get("c") or x.get("a"))[0]) if y["k"] == "Mem"}
+                if mems[0] in tgt:
+                    sites.append((f, n, c.get("cls") or "", mems[0]))
+    if len(sites) < 10:
+        raise core.AnalysisBroken("only %d install-if-different update methods found (Well::update*, Group::updateProduction: 13 on the pinned tree)" % len(sites))
+    classes = sorted({T for _, _, T, _ in sites})
+    units_h = [u for u in core.library_units()]
+    recs = chk.facts(core.library_units(), files_re="^/repo/opm/", fn_re="::operator==$", rest_light=True)
+    for T in classes:
+        rec = recs.recs.get(T) or fx.recs.get(T)
+        eqs = [f for f in recs.fns if f["q"] == T + "::operator==" and f.get("body") and not f.get("light")] or [f for f in fx.fns if f["q"] == T + "::operator==" and f.get("body")]
+        if rec is None or not eqs:
+            raise core.AnalysisBroken("%s: record or operator== not found" % T)
+        names = {x["n"] for x in rec["fields"]}
+        got = set()
+        for e in eqs:
+            for n in walk_fn(e):
+                if n["k"] == "Mem" and n["n"] in names and (n.get("cls") in (None, T)):
+                    got.add(n["n"])
+                elif n["k"] in ("DMem", "UMem") and n["n"] in names:
+                    got.add(n["n"])
+                elif n["k"] == "MCall" and n.get("cls") == T and n.get("fn") in by_q:
+                    for g in by_q[n["fn"]]:
+                        if g.get("body"):
+                            got |= {x["n"] for x in walk_fn(g) if x["k"] == "Mem" and x["n"] in names}
+        where = [s_ for s_ in sites if s_[2] == T]
+        for fld in sorted(names):
+            key = "%s::%s" % (T, fld)
+            chk.instance(r, key, sample=dict(member=key, compared=fld in got, change_detection_in=[s_[0]["q"] for s_ in where]))
+            if fld not in got:
+                ex = exempt.get((T, fld))
+                if ex:
+                    used.add((T, fld))
+                    continue
+                chk.violation(r, key, "%s installs a new %s only if it differs from the current one, but %s::operator== does not compare `%s`: an input record that changes nothing else is dropped and the schedule keeps the old value" % (where[0][0]["q"], T.split("::")[-1], T, fld), eqs[0]["file"], eqs[0]["l"])
+    for k_ in exempt:
+        if k_ not in used:
+            chk.info(r, "tables/c03_changed_exempt.json: entry %s::%s not needed on this tree" % k_)
+
+
 def run(chk):
     units = core.library_units()
     fx = chk.facts(units)
@@ -268,6 +332,7 @@ def run(chk):
     allow_t, used_t = run_through(chk, fx, fns, closure)
 
     run_inplace(chk, fx, fns)
+    run_changed(chk, fx)
 
     # ---- C03.index
     r_idx = chk.rule("C03.index", "snapshots[e] with an arithmetic index (an earlier/later step than the one being built) is only read", floor=40)
